@@ -791,6 +791,15 @@ func (ld *Loaded) genStubOnce(lp *LPkg, skip map[string]string, cur *string) (st
 					return "", fmt.Errorf("%s:%d: %v", cf.Path, lc.Line, err)
 				}
 				for _, id := range ids {
+					if id == "rangeidx" {
+						// the (possibly unnamed) index of a range loop: next index to be visited
+						if _, ok := names[id]; !ok {
+							names[id] = len(ps)
+							ps = append(ps, stubParam{Name: id, Kind: "rangeidx"})
+							ds = append(ds, "rangeidx int")
+						}
+						continue
+					}
 					sc := p.Types.Scope().Innermost(bodyPos)
 					if sc == nil {
 						continue
@@ -869,6 +878,14 @@ func (ld *Loaded) genStubOnce(lp *LPkg, skip map[string]string, cur *string) (st
 			stmt, err := findStmt(ld.Fset, u.Decl.Body, ac.Anchor)
 			if err != nil {
 				return "", fmt.Errorf("%s:%d: contract drift: %s: %v", cf.Path, ac.Line, fc.Key, err)
+			}
+			if ac.When == "in" {
+				// `in "if cond"`: at the start of the then-branch of that if statement
+				ifs, ok := stmt.(*ast.IfStmt)
+				if !ok || len(ifs.Body.List) == 0 {
+					return "", fmt.Errorf("%s:%d: contract drift: %s: anchor %q is not an if statement with a body", cf.Path, ac.Line, fc.Key, ac.Anchor)
+				}
+				stmt = ifs.Body.List[0]
 			}
 			au := &AssertUnit{C: ac, Stmt: stmt, Index: k}
 			u.Asserts = append(u.Asserts, au)
